@@ -183,6 +183,7 @@ class RepoInterp:
         self.cur_fi = fi
         self.forked: List[str] = []
         self.interp = _OracleInterp(self)
+        self.interp.on_default_factory = self.on_default_factory  # type: ignore[attr-defined]
         self.interp.on_with = self.on_with  # type: ignore[attr-defined]
         self.interp.on_with_object = self.on_with_object  # type: ignore[attr-defined]
 
@@ -452,6 +453,21 @@ class RepoInterp:
                 return v_cv
         return None
 
+    def on_default_factory(self, factory: str, st: State) -> Optional[V]:
+        """`collections.defaultdict(SomeClassOfThePackage)`: a missing key gets a new instance, built by the class's __init__"""
+        mn, _, cn = factory.rpartition(".")
+        ci = self.repo.cls(mn, cn, required=False) if mn else self.repo.resolve_class(self.cur_fi.module, factory)
+        if ci is None:
+            return None
+        saved_ci, saved_fi = self.construct_instances, self.cur_fi
+        self.construct_instances = True
+        self.cur_fi = FunctionInfo(ci.module, "<module>", ast.parse("def _m(): pass").body[0])
+        try:
+            node = ast.parse(f"{ci.name}()", mode="eval").body
+            return self.interp.eval(node, st)
+        finally:
+            self.construct_instances, self.cur_fi = saved_ci, saved_fi
+
     def _new_dataclass(self, ci: Any, call: ast.Call, args: List[V], kwargs: Dict[str, V], st: State) -> Optional[V]:
         """an instance of a @dataclass of the package that has no __init__ of its own: the generated one binds the arguments to
         the annotated fields in class-body order, defaults from the class body; then __post_init__ if there is one"""
@@ -492,10 +508,18 @@ class RepoInterp:
                     dflt = s2.value
                     if isinstance(dflt, ast.Call) and (dotted(dflt.func) or "").split(".")[-1] == "field":
                         kw = {k_.arg: k_.value for k_ in dflt.keywords}
+                        no_init = isinstance(kw.get("init"), ast.Constant) and kw["init"].value is False
                         dflt = kw.get("default") or (ast.Call(func=kw["default_factory"], args=[], keywords=[]) if "default_factory" in kw else None)
                         if dflt is not None:
                             ast.copy_location(dflt, s2)
                             ast.fix_missing_locations(dflt)
+                        if no_init:
+                            # field(init=False): not a parameter of the generated __init__; set later by the class's own code
+                            out = [(n_, d_) for n_, d_ in out if n_ != s2.target.id]
+                            if dflt is not None:
+                                self._dc_noinit = getattr(self, "_dc_noinit", {})
+                                self._dc_noinit.setdefault(ci.fq, {})[s2.target.id] = dflt
+                            continue
                     out = [(n_, d_) for n_, d_ in out if n_ != s2.target.id] + [(s2.target.id, dflt)]
         return out
 
@@ -641,6 +665,39 @@ class RepoInterp:
                 cols2 = [([a.fields["value"]] * n_z) if (isinstance(a, R) and a.kind == "repeat_forever") else c for c, a in zip(cols, args)]
                 return K(tuple(K(tuple(r)) for r in zip(*cols2)))
             return None
+        if fname in ("operator.sub", "operator.add", "operator.or_", "operator.and_", "operator.xor", "operator.mul") and len(args) == 2 and not kwargs:
+            # the function forms of the binary operators: evaluated as the operator they stand for
+            op_b = {"sub": ast.Sub(), "add": ast.Add(), "or_": ast.BitOr(), "and_": ast.BitAnd(), "xor": ast.BitXor(), "mul": ast.Mult()}[fname.split(".")[1]]
+            saved_b = {n_: st.env.get(n_) for n_ in ("__opl", "__opr")}
+            st.env["__opl"], st.env["__opr"] = args[0], args[1]
+            try:
+                node_b = ast.BinOp(left=ast.Name(id="__opl", ctx=ast.Load()), op=op_b, right=ast.Name(id="__opr", ctx=ast.Load()))
+                ast.copy_location(node_b, call)
+                ast.fix_missing_locations(node_b)
+                r_b = it.eval(node_b, st)
+            finally:
+                for n_, v_ in saved_b.items():
+                    if v_ is None:
+                        st.env.pop(n_, None)
+                    else:
+                        st.env[n_] = v_
+            return None if isinstance(r_b, U) else r_b
+        if tailname == "filterfalse" and fname in ("filterfalse", "itertools.filterfalse") and len(call.args) == 2 and not kwargs:
+            seq_ff = it.iterate(args[1], st)
+            import os as _os
+            if seq_ff is None:
+                return None
+            out_ff: List[V] = []
+            for x in seq_ff:
+                r_ff: Optional[V] = x if (isinstance(call.args[0], ast.Constant) and call.args[0].value is None) else self.apply_callable(call.args[0], [x], st)
+                if r_ff is None or st.pending is not None:
+                    return None
+                t_ff = it._value_truth(call.args[0], r_ff, st)
+                if t_ff is None:
+                    return None
+                if not t_ff:
+                    out_ff.append(x)
+            return K(tuple(out_ff))
         if tailname in ("takewhile", "dropwhile", "filter", "map", "starmap") and fname in (tailname, "itertools." + tailname) and len(call.args) == 2 and not kwargs:
             seq = it.iterate(args[1], st)
             if seq is None:
@@ -1006,8 +1063,12 @@ class RepoInterp:
             ci_p = self.repo.cls(mn_p, cn_p, required=False)
             if ci_p is not None and cn_p.split(".")[-1].startswith("_") and self._nt_fields(ci_p) is None \
                     and not any(b.split(".")[-1] not in ("object",) for b in ci_p.bases):
-                obj_p = st.alloc("obj", {"__class__": K(ci_p.fq)})
                 init_p = self.repo.method(ci_p, "__init__")
+                if init_p is None:
+                    obj_dc0 = self._new_dataclass(ci_p, call, args, kwargs, st)
+                    if obj_dc0 is not None:
+                        return obj_dc0
+                obj_p = st.alloc("obj", {"__class__": K(ci_p.fq)})
                 if init_p is not None:
                     self.inline_call(init_p, call, obj_p, args, kwargs, st)
                 return obj_p
